@@ -89,9 +89,9 @@ def run(c):
         if c.broken and not c.violations:
             # something no longer checks: extra search budget on the property monitors only
             keep = list(c.broken)
-            _edf(c, "edf-search", n_edf * (8 if quick else 3), seed=c.seed + 7919, corr=())
-            _frames(c, "frames-search", n_fr * (4 if quick else 2), seed=c.seed + 7919, corr=())
-            _hs(c, "hs-search", n_hs * 2, seed=c.seed + 7919)
+            _edf(c, "edf-search", n_edf * (4 if quick else 2), seed=c.seed + 7919, corr=())
+            _frames(c, "frames-search", n_fr * (3 if quick else 2), seed=c.seed + 7919, corr=())
+            _hs(c, "hs-search", n_hs, seed=c.seed + 7919)
             c.broken = keep + [b for b in c.broken if b not in keep]
     c.cov["rule"] = ("distinct = different Coq case term (options, input bytes, observation); non-trivial (edf) = the model accepts "
                      "the input, the bound of C16_alloc_accepted_linear holds in the model and the guard of C16_idempotent holds on "
